@@ -19,8 +19,18 @@ sys.path.insert(0, HERE)
 import run_scenario
 VERIF = os.path.dirname(HERE)
 GRID = os.path.join(VERIF, "scenarios", "grid")
-FOCI = ["C01", "C02", "C03", "C04", "C05", "C06", "C07", "C08", "C13", "C14", "C15", "C18", "C19"]
+FOCI = ["C01", "C02", "C03", "C04", "C05", "C06", "C07", "C08", "C13", "C14", "C15", "C18", "C19", "C10", "C11", "C12"]
+# C10: programs with unguarded arithmetic; oracle from the statement alone (no panic, no hang), nothing recorded is compared.
+# C11: a valid scenario whose SIGNAL LIST is then damaged (signal dropped, renamed, duplicated, direction changed): bind verdict.
+# C12: a valid scenario whose PROGRAM TEXT is then damaged by one token-level edit: parse verdict and error location validity.
+# C09 replays the C12 pool with the statement's oracle (no panic, error locations inside the text).
+VERDICT_ONLY = {"C11": ("stage", "outcome"), "C12": ("stage", "outcome", "spans_valid")}
+POOL_OF = {"C09": "C12"}
+TOKEN_POOL = ["loop", "end", "while", "repeat", "let", "declare", "bits", "resetRandom", "(", ")", ",", ";", "=", "+", "<<", "!", "~",
+              "X", "C", "Z", "0x10000000000000000", "18446744073709551616", "0b2", "09", "0x", "q", "ite", "random", "signExt", "foo(1)",
+              "ite(1,2)", "ite(1,2,3,4)", "bits(65,1)", "bits(0,1)", "1 2", "\n", "#"]
 PER_FOCUS = 250
+SIZE = {"C12": 2000, "C11": 1000, "C10": 750}
 
 BINOPS = ["+", "-", "*", "/", "%", "&", "|", "^", "<<", ">>", "=", "!=", "<", ">", "<=", ">="]
 VARS = ["a", "b", "c", "i", "j", "k", "n", "x", "y"]
@@ -73,12 +83,12 @@ class Gen:
             return u + self.atom(scope, depth - 1, outs)
         if c < 0.2:
             return f"ite({self.expr(scope, depth - 1, outs)}, {self.expr(scope, depth - 1, outs)}, {self.expr(scope, depth - 1, outs)})"
-        ops = BINOPS if self.focus == "C08" or self.p(0.3) else ["+", "-", "*", "&", "|", "^", "<", "=", ">>", "<<"]
+        ops = BINOPS if self.focus in ("C08", "C10") or self.p(0.3) else ["+", "-", "*", "&", "|", "^", "<", "=", ">>", "<<"]
         op = r.choice(ops)
         # operands are atoms or, often, bare sub-expressions: the printed text then leans on the precedence rules (C08)
         l = self.expr(scope, depth - 1, outs) if self.p(0.5) else self.atom(scope, depth - 1, outs)
         rr = self.expr(scope, depth - 1, outs) if self.p(0.35) else self.atom(scope, depth - 1, outs)
-        if op in ("/", "%") and self.p(0.8):
+        if op in ("/", "%") and self.p(0.8) and self.focus != "C10":
             rr = f"({rr} | 1)"
         if op in ("<<", ">>") and self.p(0.7):
             rr = str(r.choice([0, 1, 3, 7, 31, 63, 64, 65]))
@@ -255,6 +265,8 @@ class Gen:
             out.append("verdicts")
         if f in ("C13", "C14", "C04", "C10") or self.p(0.3):
             out.append("continue")
+        if f == "C10":
+            out.append("static")
         if f == "C15":
             out.append("static")
             out.append("rerun")
@@ -279,11 +291,70 @@ class Gen:
         return "\n".join(out) + "\n" + text
 
 
-def generate(focus, n=PER_FOCUS):
+def damage_program(rnd, scen):
+    head, prog = scen.split("\nprogram\n", 1)
+    toks = re.findall(r"\r?\n|[ \t]+|#[^\n]*|\w+|<<|>>|<=|>=|!=|.", prog)
+    idx = [i for i, t in enumerate(toks) if t.strip() or "\n" in t]
+    if not idx:
+        return scen
+    i = rnd.choice(idx)
+    c = rnd.random()
+    if c < 0.25:
+        del toks[i]
+    elif c < 0.4:
+        toks.insert(i, toks[i])
+    elif c < 0.55 and i + 2 < len(toks):
+        j = next((k for k in idx if k > i), i)
+        toks[i], toks[j] = toks[j], toks[i]
+    elif c < 0.85:
+        toks[i] = rnd.choice(TOKEN_POOL)
+    elif c < 0.93:
+        toks.insert(i, rnd.choice(TOKEN_POOL) + " ")
+    else:
+        toks = toks[:i]
+    return head + "\nprogram\n" + "".join(toks)
+
+
+def damage_signals(rnd, scen):
+    lines = scen.split("\n")
+    sig = [i for i, l in enumerate(lines) if l.startswith("signal ")]
+    i = rnd.choice(sig)
+    w = lines[i].split()
+    c = rnd.random()
+    if c < 0.25:
+        del lines[i]
+    elif c < 0.4:
+        lines.insert(i, lines[i])
+    elif c < 0.6:
+        w[1] = {"in": "out", "out": "in", "bidir": rnd.choice(["in", "out"])}[w[1]]
+        if w[1] == "out":
+            w = w[:4]
+        elif len(w) < 5:
+            w.append("0")
+        lines[i] = " ".join(w)
+    elif c < 0.75:
+        w[2] = rnd.choice([w[2] + "_out", w[2].lower(), "V1", "IO", "IO_out", w[2] + "2"])
+        lines[i] = " ".join(w)
+    elif c < 0.9:
+        w[3] = rnd.choice(["0", "65", "64", "1", "128"])
+        lines[i] = " ".join(w)
+    else:
+        j = rnd.choice(sig)
+        lines[i] = lines[i].replace(" " + w[2] + " ", " " + lines[j].split()[2] + " ")
+    return "\n".join(lines)
+
+
+def generate(focus, n=None):
+    n = n or SIZE.get(focus, PER_FOCUS)
     cases = []
     for k in range(n):
         rnd = random.Random(f"{focus}/{k}")
-        cases.append(Gen(rnd, focus).scenario())
+        if focus == "C12":
+            cases.append(damage_program(rnd, Gen(rnd, rnd.choice(["C08", "C01", "C05", "C14", "C19"])).scenario()))
+        elif focus == "C11":
+            cases.append(damage_signals(rnd, Gen(rnd, rnd.choice(["C06", "C14", "C04"])).scenario()))
+        else:
+            cases.append(Gen(rnd, focus).scenario())
     return cases
 
 
@@ -421,10 +492,25 @@ def load(focus):
 
 def check(focus):
     """returns (n_cases, [(index, scenario text, mismatches, observed)])"""
-    cases = load(focus)
+    pool = POOL_OF.get(focus, focus)
+    cases = load(pool)
     if not cases:
         return 0, []
     res = run_cases([c["scenario"] for c in cases], focus)
+    if focus in ("C09", "C10"):
+        # oracle from the statement alone
+        fails = []
+        for i, c in enumerate(cases):
+            bad = []
+            for prof in ("release", "debug"):
+                o = res[prof][i] if i < len(res[prof]) else dict(outcome="missing")
+                if o.get("outcome") in ("panic", "timeout", "crash", "garbled", "missing"):
+                    bad.append(f"{prof}: outcome {o.get('outcome')} (stage {o.get('stage')})")
+                if focus == "C09" and o.get("spans_valid") is False:
+                    bad.append(f"{prof}: a parse error is located outside the text or off a character boundary")
+            if bad:
+                fails.append((i, c["scenario"], bad, {p: (res[p][i] if i < len(res[p]) else None) for p in res}))
+        return len(cases), fails
     fails = []
     for i, c in enumerate(cases):
         bad = []
@@ -433,6 +519,9 @@ def check(focus):
             raw_calls = o.pop("_raw_calls", None)
             bad += [f"{prof}: {b}" for b in changed_rule(c["scenario"], dict(calls=raw_calls))[:2]]
             o, ex = cut(o), cut(dict(c["expect"]))
+            if focus in VERDICT_ONLY:
+                o = {k: o.get(k) for k in VERDICT_ONLY[focus]}
+                ex = {k: ex.get(k) for k in VERDICT_ONLY[focus]}
             if o != ex:
                 ks = [k for k in set(o) | set(ex) if o.get(k) != ex.get(k)]
                 bad.append(f"{prof}: differs from the recorded behaviour in {sorted(ks)}: " +
